@@ -54,6 +54,7 @@ Member(st) ==
       [] st.a = "Load" -> Load(p)
       [] st.a = "ApplyDetached" -> ApplyDetached(p, ar.commit)
       [] st.a = "ExternalCommit" -> ExternalCommit(p, ar.from, ar.resync)
+      [] st.a = "NewMemberPropose" -> NewMemberPropose(p, ar.from)
       [] OTHER -> FALSE
 
 Succ(st) ==
@@ -70,6 +71,7 @@ Obs(st) ==
       [] st.a = "ObsDeliverCommit" -> ObsDeliverCommit(ar.commit)
       [] st.a = "ObsDeliverApp" -> ObsDeliverApp(ar.app, ar.gen)
       [] st.a = "ObsSnapshotRestore" -> ObsSnapshotRestore
+      [] st.a = "ObsPropose" -> ObsPropose(ar.kind, ar.arg)
       [] OTHER -> FALSE
 
 Directed(st) ==
@@ -91,6 +93,6 @@ FEmit ==
     /\ PrintT(<<"FOLLOWED", bi, Len(hist)>>)
     /\ (Len(hist) = Len(Steps)) =>
           PrintT(<<"REPLAY", ToJson([bi |-> bi, cfg |-> [pathReq |-> opt.pathReq, enc |-> opt.enc, jit |-> opt.jit, retention |-> Retention, window |-> Window,
-                                               psk |-> pskStore, parties |-> Parties, creator |-> Creator, capX |-> CapX, capY |-> CapY],
+                                               psk |-> pskStore, parties |-> Parties, creator |-> Creator, capX |-> CapX, capY |-> CapY, features |-> Features],
                                       steps |-> [i \in 1..Len(hist) |-> hist[i] @@ [aux |-> haux[i]]]])>>)
 =============================================================================
